@@ -7,7 +7,7 @@
    occur in between.  Statements only; lemmas in Proofs/AsyncGenP.v.  Every schema, every declared type, binary /
    binary-LE / compact. *)
 From PV Require Import Proofs.HeaderP Proofs.PrefixP.
-From PVGen Require Import Gen GenSpec GenAsync Proofs.TotalGenP Proofs.AsyncGenP.
+From PVGen Require Import Gen GenSpec GenAsync ErrSpec Proofs.TotalGenP Proofs.AsyncGenP Proofs.AsyncErrGenP.
 Open Scope Z_scope.
 
 (* the result depends on the stream only through the bytes it delivers *)
@@ -67,7 +67,8 @@ Theorem C12_gen_async_no_panic : forall S p f t s st, gen_decode_async S p f t s
 Proof. exact (fun S p f t => NP_gen_decode_async S p f t). Qed.
 Print Assumptions C12_gen_async_no_panic.
 
-(* FULL STATEMENT (C12_gen_error):  forall l, gen_decode S p f t (mkS l rcx) = Err e ->
+(* (gen-B; superseded by C12_gen_error below, kept because C09 / C02 use it)
+   FULL STATEMENT (C12_gen_error):  forall l, gen_decode S p f t (mkS l rcx) = Err e ->
                                      exists e', gen_decode_async S p f t (mkS l rcx) = Err e' /\ e' <> EOutOfFuel.
    Proved part: the inputs the property names -- "prefixes of valid input: async sees EOF": when the stream ends
    strictly inside a message written by the emitted encoder (where the in-memory decoder reports an error,
@@ -86,3 +87,52 @@ Theorem C12_gen_error_partial : forall S p k t v,
       exists e, gen_decode_async S p fuel t (mkS (firstn n (flat ss)) rcx) = Err e.
 Proof. exact gen_async_prefix_error. Qed.
 Print Assumptions C12_gen_error_partial.
+
+(* ---------- the error direction on ARBITRARY input (gen-C; lemmas in Proofs/AsyncErrGenP.v) ----------
+
+   From an idle reader, on ANY byte string (corrupted counts and lengths, wrong wire types, truncations, garbage),
+   binary / binary-LE / compact: whenever the emitted in-memory decoder of a struct or union (the types that have a
+   `decode_async`; is_message, ErrSpec.v) returns an error, the emitted asynchronous decoder returns an error -- never a
+   value.  elems_ok S (decidable): no container of the schema has a void element type (not writable in IDL).
+
+   The invariant is the potential  phi = bytes left + (1 if a bool value is pending):  the union template matches a
+   variant on the id only (F-08a), so a compact bool field header can be followed by the reader of another type and its
+   value stays pending (the primitive-level invariant "nothing is pending except right after a bool header" fails); but
+   every successful read of a non-void value lowers phi by at least 1 and no header raises it, so an asynchronous
+   decoder that runs past a count the in-memory reader rejected ends with an error or STARVED (phi = 0) -- and the
+   Stop header every struct / union still owes cannot be read from a starved state. *)
+Theorem C12_gen_error : forall S p f t l rcx e,
+  elems_ok S = true -> is_message S t = true ->
+  idle rcx -> Z.of_nat (length l) < 2 ^ 63 ->
+  gen_decode S p f t (mkS l rcx) = Err e ->
+  exists e', gen_decode_async S p f t (mkS l rcx) = Err e'.
+Proof. exact gen_async_error. Qed.
+Print Assumptions C12_gen_error.
+
+Theorem C12_gen_error_top : forall S p t l e,
+  elems_ok S = true -> is_message S t = true -> Z.of_nat (length l) < 2 ^ 63 ->
+  gen_decode_top S p t l = Err e -> exists e', gen_decode_async_top S p t l = Err e'.
+Proof. exact gen_async_error_top. Qed.
+Print Assumptions C12_gen_error_top.
+
+(* every declared type, message or not: the asynchronous decoder fails, or returns with the stream exhausted and no bool
+   value pending *)
+Theorem C12_gen_error_any : forall S p f t l rcx e,
+  elems_ok S = true -> ty_elems_ok S t = true ->
+  idle rcx -> Z.of_nat (length l) < 2 ^ 63 ->
+  gen_decode S p f t (mkS l rcx) = Err e ->
+  (exists e', gen_decode_async S p f t (mkS l rcx) = Err e') \/
+  (exists v s2, gen_decode_async S p f t (mkS l rcx) = Ok (v, s2) /\ rbuf s2 = [] /\ r_pbool (rc s2) = None).
+Proof. exact gen_async_error_any. Qed.
+Print Assumptions C12_gen_error_any.
+
+(* the restriction to message types is needed in the model: for the bare container map<U, list<bool>>, U = union {1: i32},
+   compact, the in-memory decoder rejects the list count and the asynchronous decoder returns a value (the free pending
+   bool).  Not observable on the emitted code: no decode entry point takes a bare container, and inside a struct the
+   Stop header is owed (AsyncErrGenP.gen_async_error_nonvacuous replays the same bytes inside a struct). *)
+Theorem C12_gen_error_container_refuted :
+  wf_schema Sx = true /\ elems_ok Sx = true /\ ty_elems_ok Sx Tx = true /\ is_message Sx Tx = false /\
+  gen_decode Sx PCompact 40 Tx (mkS bx r0) = Err ESizeLimit /\
+  gen_decode_async Sx PCompact 40 Tx (mkS bx r0) = Ok (GMap [(GUnion 1 (GI32 0), GList [GBool true])], mkS [] r0).
+Proof. exact gen_async_error_container_refuted. Qed.
+Print Assumptions C12_gen_error_container_refuted.
